@@ -1,7 +1,7 @@
 #!/bin/bash
 # silence.sh <tier> <seed-list>   — runs every claimed check at the given seeds; prints one line per run
 # and a final count of runs that were not silent (exit != 0 or a VIOLATION line).
-cd /verif
+cd "$(dirname "$0")/.."
 TIER="${1:-quick}"; shift
 SEEDS="${*:-1 2 3}"
 BAD=0
